@@ -5,6 +5,11 @@
 # inbound connections through a listener manager of the harness, FSM goroutines as in production) through generated
 # server-level histories and evaluates the property clauses on the real objects after every event
 # (notes/ServerWiring.md).
+#
+# isisreload: the C36 harness (harness/cmd/c36, notes/C36.md) with -isisprop C32: daemon lives of 2-3 configuration
+# files that all carry an isis section, replayed through the real bio-rd binary (config.GetConfig + loadConfig);
+# after every load the number of LSDB routine sets started on the IS-IS server must be 1 (every further set ages
+# all LSPs once more per second: C32 "keeps ... until it ages out"). C36 itself sees the same oracle in its own run.
 SHARED = [
     {
         "name": "serverwiring",
@@ -12,6 +17,14 @@ SHARED = [
         "props": ["C04", "C06", "C07", "C08", "C09", "C10", "C11", "C12"],
         "tiers": {"quick": {"cases": 800}, "thorough": {"cases": 6000}},
         "harness_args": ["-corpus", "/verif/corpus/serverwiring"],
+        "timeout": 600,
+    },
+    {
+        "name": "isisreload",
+        "harness": "c36",
+        "props": ["C32"],
+        "tiers": {"quick": {"cases": 60}, "thorough": {"cases": 600}},
+        "harness_args": ["-isisprop", "C32"],
         "timeout": 600,
     },
 ]
